@@ -1,0 +1,14 @@
+//go:build verif
+
+// Contracts for package extractsev, checked by /verif (govc). Comment-only; compiled only under -tags verif.
+package extractsev
+
+//@ func familyIDObjectPrefix
+//@   assigns nothing
+//@   ensures[C16] result == "ovmf_x64_csm" || result == "unknown"
+//@   ensures[C16] result == sevPrefix(familyID)
+
+//@ func GCETcbObjectName
+//@   assigns nothing
+//@   ensures[C16] result == sevObjectName(sevPrefix(familyID), val(measurement))
+//@   ensures[C16] sevPrefix(familyID) == "ovmf_x64_csm" || sevPrefix(familyID) == "unknown"
